@@ -44,6 +44,12 @@ type RctForge struct {
 	// removed (< 0) from EcdhInfo / AddKeys. ProofCopies: extra copies of the
 	// range proof entry.
 	EcdhDelta, AddKeysDelta, ProofCopies int
+	// ExtraAccountInput (account->hidden transactions only): a second account
+	// input of that many units, same nonce, placed in front of the genuine one,
+	// with a commitment of its own that takes part in the balance equation. The
+	// statement knows one account input per transaction (its amount is what the
+	// sender is debited): whatever the second one "pays" comes from nowhere.
+	ExtraAccountInput *big.Int
 }
 
 // ForgedValue is what the forged transaction is worth by the plain value
@@ -288,6 +294,17 @@ func (g *Gen) ForgeAccToUtxo(it *Item, f RctForge) (types.Tx, *ForgedValue, erro
 			return
 		}
 		ain.CF = ringct.ScSub(lktypes.EcScalar(sumOut), lktypes.EcScalar(sumIn))
+		if f.ExtraAccountInput != nil {
+			xKey, e := unitsKey(f.ExtraAccountInput)
+			if e != nil {
+				ferr = e
+				return
+			}
+			extra := &types.AccountInput{Nonce: ain.Nonce, Amount: new(big.Int).Mul(f.ExtraAccountInput, unit), CF: ringct.SkGen()}
+			extra.Commit, _ = ringct.AddKeys2(extra.CF, xKey, ringct.H)
+			ain.CF = ringct.ScSub(lktypes.EcScalar(ain.CF), lktypes.EcScalar(extra.CF))
+			tx.Inputs = append([]types.Input{extra}, tx.Inputs...)
+		}
 		ain.Commit, _ = ringct.AddKeys2(ain.CF, inKey, ringct.H)
 		if e := tx.Sign(types.GlobalSTDSigner, from.Key); e != nil {
 			ferr = e
